@@ -147,7 +147,7 @@ impl Adapter for BulkheadAd {
     fn params(&self, cfg: &Value, size: Size, rng: &mut Rng) -> DriveParams {
         let max = cfg["max"].as_u64().unwrap() as usize;
         let mut p = DriveParams::default();
-        p.n = if size == Size::Quick { max + 2 + rng.below(3) } else { max + 2 + rng.below(8) };
+        p.n = (if size == Size::Quick { max + 2 + rng.below(3) } else { max + 2 + rng.below(8) }).min(20);
         p.steps = if size == Size::Quick { 50 } else { 200 };
         p.horizon = if size == Size::Quick { 30 } else { 120 };
         p.w_drop = 1 + rng.below(2) as u32;
